@@ -306,10 +306,11 @@ REGISTRY = {
         'rule': 'every fault position x exception class x trailing/plain on all small trees of instrumented objects',
     },
     'C12': {
-        'theorems': ['PP.C12.machine_quadratic', 'PP.C12.fits_linear', 'PP.C12.fits_smart_linear', 'PP.C12.fitsFastC_fst', 'PP.C12.fitsSmartC_fst',
+        'theorems': ['PP.C12.layout_quadratic_in_value', 'PP.C12.doc_linear', 'PP.Pr.toDocW_size', 'PP.Pr.rsize_commentdoc',
+                     'PP.C12.machine_quadratic', 'PP.C12.fits_linear', 'PP.C12.fits_smart_linear', 'PP.C12.fitsFastC_fst', 'PP.C12.fitsSmartC_fst',
                      'PP.C12.build_linear_partial', 'PP.C12.commented_dict_exponential', 'PP.C12.string_pieces_linear',
                      'PP.Doc.size_normalize', 'PP.C02.budget_positive'],
-        'modules': ['PP.Model.Cost', 'PP.Props.C12'],
+        'modules': ['PP.Model.Cost', 'PP.Props.C12', 'PP.Proofs.SizeComment', 'PP.Proofs.SizeComb', 'PP.Proofs.SizeVal', 'PP.Props.C12b'],
         'leanchecker': True,
         'sections': [{'name': 'step-counts', 'run': simple_sec('sec_cost', 'cost_section')}],
         'rule': 'LINE events inside the package on parametrised families at n, 2n, 4n(, 8n): doubling ratios and steps <= K * model cost',
